@@ -20,6 +20,9 @@ uint64_t lltd_monotonic_milliseconds(void) {
 
 automata *init_automata_mapping(void) {
     automata *autom = lltd_port_malloc(sizeof(automata));
+    if (!autom) {
+        return NULL;
+    }
     autom->states_no = 3;
     autom->transitions_no = 13;
     autom->last_ts = lltd_monotonic_seconds();
@@ -106,6 +109,9 @@ automata *switch_state_mapping(automata *autom, int input, char *debug) {
 
 automata *init_automata_enumeration(void) {
     automata *autom = lltd_port_malloc(sizeof(automata));
+    if (!autom) {
+        return NULL;
+    }
     autom->states_no = 3;
     autom->transitions_no = 8;
     autom->last_ts = lltd_monotonic_seconds();
@@ -121,11 +127,13 @@ automata *init_automata_enumeration(void) {
 
     autom->extra = lltd_port_malloc(sizeof(band_state));
     band_state *band = (band_state *)autom->extra;
-    band->begun = false;
-    band->Ni = BAND_ALPHA;
-    band->r = 0;
-    band->hello_timeout_ts = 0;
-    band->block_timeout_ts = 0;
+    if (band) {
+        band->begun = false;
+        band->Ni = BAND_ALPHA;
+        band->r = 0;
+        band->hello_timeout_ts = 0;
+        band->block_timeout_ts = 0;
+    }
 
     autom->current_state = 0;
     autom->states_table[0] = quiescent;
@@ -174,6 +182,9 @@ automata *switch_state_enumeration(automata *autom, int input, char *debug) {
 
 automata *init_automata_session(void) {
     automata *autom = lltd_port_malloc(sizeof(automata));
+    if (!autom) {
+        return NULL;
+    }
     autom->states_no = 4;
     autom->transitions_no = 17;
     autom->last_ts = lltd_monotonic_seconds();
